@@ -186,4 +186,28 @@ PROPS = {
             {"name": "dirs", "test": "TestDirs", "kind": "plain", "shards": {Q: 4, T: 4}, "timeout": {Q: 300, T: 300}},
         ],
     },
+    "C19": {
+        "pkg": "c19", "bin": False,
+        "technique": "rapid byte-stream/chunking generator against a normal-form (round-trip) oracle with a recording sink; "
+                     "differential across the three formats in one fresh child process per format",
+        "level_text": "streams: 1..8 concurrent tasks, generated streams (lines 0..10000 bytes, LF/CRLF/bare CR, unterminated tail, CSI "
+                      "sequences, multi-byte runes) under arbitrary cuts into Write calls; raw must forward byte-exactly (per-task "
+                      "private alphabets when several tasks share the sink), prefixed must emit whole single-task lines whose "
+                      "normal form equals the input's. formats: every outcome x format (matrix, exhaustive) and rapid 1..3-task "
+                      "processes with durations around the cockpit's 100 ms frame: no crash, no hang, identical recorded results.",
+        "level_note": "Chunk boundaries inside an escape sequence are excluded from the main search by construction (known finding "
+                      "ansi-split, probed separately); a hang is 12 s against ~0.3 s normal and is cross-checked by a calibration child.",
+        "rule": "streams: rapid (format, 1..8 streams, line kinds incl. 4000..4200 and up to 10000 bytes, cut kinds incl. between CR and LF). "
+                "Non-trivial = >= 2 concurrent tasks, or a cut inside a line / between CR and LF, or a line > 4096 bytes, or an escape "
+                "sequence; formats: every case (distinct by canonical JSON). ",
+        "assumptions": ["ANSI sequences are the CSI grammar ESC [ digits/; final in mHJKABCDfnr with parameters of at most 4 digits",
+                        "text alphabet excludes ESC, 0x9B, NUL and BEL"],
+        "parts": [
+            {"name": "streams", "test": "TestStreams", "checks": {Q: 12000, T: 400000}, "shards": {Q: 8, T: 16}, "timeout": {Q: 400, T: 2400}},
+            {"name": "probe", "test": "TestProbeAnsiSplit", "checks": {Q: 400, T: 4000}, "shards": {Q: 1, T: 4}, "timeout": {Q: 300, T: 900}},
+            {"name": "matrix", "test": "TestFormatsMatrix", "kind": "plain", "shards": {Q: 6, T: 6}, "timeout": {Q: 400, T: 900}},
+            {"name": "frames", "test": "TestCockpitFrames", "checks": {Q: 16, T: 320}, "shards": {Q: 8, T: 16}, "timeout": {Q: 400, T: 2400}, "shrinktime": "40s"},
+            {"name": "formats", "test": "TestFormats", "checks": {Q: 48, T: 1600}, "shards": {Q: 8, T: 16}, "timeout": {Q: 400, T: 2400}, "shrinktime": "40s"},
+        ],
+    },
 }
